@@ -399,6 +399,21 @@ func runC06(ctx *core.Ctx) {
 				}
 			})
 			ctx.Check(notClosed && marked, "L4", "lockedfile.File.Close#once", c.Pos(), "closeFile reached only when the File was not yet closed (%v), after marking it closed (%v)", notClosed, marked)
+			// once marked closed, nothing can come between the mark and the unlock: a later Close
+			// only reports ErrClosed, so a return without closeFile keeps the lock for the life of the process
+			leak := ""
+			cg.Instrs(func(i ssa.Instruction) {
+				st, ok := i.(*ssa.Store)
+				if !ok {
+					return
+				}
+				if fa, ok := st.Addr.(*ssa.FieldAddr); ok && ssax.FieldOf(fa).Name() == "closed" && isTrueConst(st.Val) {
+					for _, e := range cg.MustPass(ssax.PointAfter(st), func(j ssa.Instruction) bool { return j == ssa.Instruction(c) }, false) {
+						leak = "return reachable after the File was marked closed without closeFile having run (path " + ssax.TrailString(e.Trail) + ")"
+					}
+				}
+			})
+			ctx.Check(leak == "", "L4", "lockedfile.File.Close#always-unlocks", c.Pos(), "every return after the closed mark passes closeFile %s", leak)
 		}
 	}
 	{
